@@ -2,8 +2,10 @@
 import itertools
 from facts import Node, strip_targs, Inconclusive
 from symex import Exec, Lin, Unknown, Ref, Sym, as_lin, Closure
-from contdom import ContDomain, ModVal, ModPlus, Ptr, ElemRef, Bytes, MinVal, Rem, nonneg, feasible_sign
+from contdom import ContDomain, ModVal, ModPlus, Ptr, ElemRef, Bytes, MinVal, Rem, nonneg, feasible_sign, concrete
 
+import re
+_UNK = re.compile(r'\?[^\s]|\$')        # repr of an Unknown (`?tag`) or of an opaque symbol (`$name`) inside a value
 TUS = ['witness/w_containers.cpp']
 TRIVIAL = {'int', 'unsigned char', 'char', 'float', 'double', 'long', 'unsigned int', 'unsigned long'}
 
@@ -345,8 +347,9 @@ class RCtx:
         for k, v in self.rows.items():
             if isinstance(k, tuple) and k[0] == 'sign' and self.dom.lin_of.get(k[1]) is not None:
                 d = self.dom.lin_of[k[1]]
-                if v == '>': out.append((d, True))
-                elif v == '<': out.append((-d, True))
+                # integers: d > 0 is d - 1 >= 0
+                if v == '>': out.append((d - Lin.const(1), False))
+                elif v == '<': out.append((-d - Lin.const(1), False))
                 else: out += [(d, False), (-d, False)]
         self._facts = out
         return out
@@ -368,6 +371,44 @@ class RCtx:
                     if nonneg(r2) and (s1 or s2 or r2.c > 0): return sgn
         # exact zero through equalities is handled by norm(); otherwise unknown
         return None
+
+    def models(self, extra=('p:newCapacity',), bound=5):
+        """valuations of the entry symbols (small buffers) that satisfy the object invariants and every atom of this row"""
+        import itertools as it
+        syms = set()
+        for k, v in self.rows.items():
+            if isinstance(k, tuple) and k[0] == 'sign' and self.dom.lin_of.get(k[1]) is not None: syms |= set(self.dom.lin_of[k[1]].t)
+        free = [s_ for s_ in sorted(syms | set(extra)) if s_ not in ('P', 'S', 'C')]
+        if len(free) > 2: return
+        for Cv in range(1, bound + 1):
+            for Sv in range(0, Cv + 1):
+                for Pv in range(0, Cv):
+                    for fv in it.product(range(0, bound + 3), repeat=len(free)):
+                        env = dict(P=Pv, S=Sv, C=Cv); env.update(zip(free, fv))
+                        ok = True
+                        for k, v in self.rows.items():
+                            if not isinstance(k, tuple): continue
+                            if k[0] == 'sign':
+                                d = self.dom.lin_of.get(k[1])
+                                x = concrete(d, env) if d is not None else None
+                            elif k[0] == 'ord':
+                                lr = self.dom.ord_vals.get(k[1])
+                                if lr is None: x = None
+                                else:
+                                    a, b = concrete(lr[0], env), concrete(lr[1], env)
+                                    x = None if a is None or b is None else a - b
+                            else: continue
+                            if x is None: return          # an atom over something else: no models claimed
+                            if {'<': x < 0, '=': x == 0, '>': x > 0}[v] is False: ok = False; break
+                        if ok: yield env
+
+    def model_check(self, pred, **kw):
+        """('refuted', witness state) | ('holds', number of small states consistent with this row, all satisfying pred) | ('unknown', 0)"""
+        n = 0
+        for env in self.models(**kw):
+            n += 1
+            if not pred(env): return 'refuted', env
+        return ('holds', n) if n else ('unknown', 0)
 
     def inner(self, v):
         """linear form congruent to an index value (ModVal / ModPlus / Lin)"""
@@ -407,8 +448,9 @@ def ring_analyse(facts, rep):
     facts = with_roles(facts, rep)
     res = {}
 
-    def add(rule, ok, inst, site, why='', key=None):
+    def add0(rule, ok, inst, site, why='', key=None):
         res.setdefault(rule, []).append((bool(ok) if ok is not None else None, inst, site, why, key))
+    add = add0
     classes = ring_classes(facts)
     nfn = 0
     P_, S_, C_ = Lin.sym('P'), Lin.sym('S'), Lin.sym('C')
@@ -442,6 +484,13 @@ def ring_analyse(facts, rep):
             except Inconclusive as e:
                 add('RB.2', None, label, site, str(e)); continue
             for rows, dom, paths in results:
+                fuzzy = None
+                if dom.imprecise: fuzzy = f'a loop at {dom.imprecise[0][1]} is not in a form the range summariser handles (evaluated by bounded unrolling)'
+                elif any(_UNK.search(str(k[1] if isinstance(k, tuple) else k)) for k in rows): fuzzy = 'the path condition contains a value the evaluator does not follow'
+                def add(rule, ok, inst, site_, why='', key=None, _fz=fuzzy):
+                    # a refutation needs an exact evaluation: with unknown values in play the verdict is "not decided"
+                    if ok is False and (_fz or _UNK.search(why)): add0(rule, None, inst, site_, f'not decided ({_fz or "unknown value"}): {why}', key)
+                    else: add0(rule, ok, inst, site_, why, key)
                 for P in paths:
                     if P.end in ('throw', 'noreturn'): continue
                     ctx = RCtx(rows, dom, P, f, is_class, ow)
@@ -661,14 +710,36 @@ def op_copy_assign(ctx, add, label, rt, site):
 
 
 def op_move_assign(ctx, add, label, rt, site):
-    sw = [p for n, p in ctx.ev if p[0] == 'swap']
-    if not sw and not ctx.writes: return
-    flds = set()
-    for p in sw:
-        for loc in (p[1], p[2]):
-            if loc[0] == 'f': flds.add(loc[1][-1])
-    ok = flds == {'m_pos', 'm_size', 'm_capacity', 'm_data'}
-    add('RB.5', ok, f'{label}: move = swap of all four fields', site, '' if ok else f'only {sorted(flds)} are exchanged: the buffer is left inconsistent', key='RB.5|move')
+    """move construction / assignment: *this ends up with the source's entry state (all four fields), the source with a
+    consistent state (this's former one, or the empty buffer); however it is written (swap, std::exchange, assignments)"""
+    if not ctx.writes and not [p for n, p in ctx.ev if p[0] == 'swap']: return       # self-move path: nothing happens
+    on = ctx.f.d['params'][0]['name'] if ctx.f.d.get('params') else 'other'
+    names = ('m_pos', 'm_size', 'm_capacity', 'm_data')
+    entry_this = {n_: ctx.dom.init_field(('this', n_), None) for n_ in names}
+    dom2 = ctx.dom; was_ctor = dom2.ctor; dom2.ctor = False
+    entry_other = {n_: dom2.init_field((on, n_), None) for n_ in names}
+    dom2.ctor = was_ctor
+    fin_this = {n_: ctx.final(n_) for n_ in names}
+    fin_other = {n_: field(ctx.P, on, n_, ctx.dom) for n_ in names}
+    def same(a, b):
+        isnull = lambda x: (isinstance(x, Ptr) and x.base == 'null') or (isinstance(x, Lin) and x == Lin.const(0)) or x == 0
+        if isnull(a) and isnull(b): return True
+        if isinstance(a, Ptr) and isinstance(b, Ptr): return a == b
+        la, lb = (as_lin(a) if isinstance(a, (Lin, int)) else None), (as_lin(b) if isinstance(b, (Lin, int)) else None)
+        return la is not None and lb is not None and la == lb
+    bad = [n_ for n_ in names if not same(fin_this[n_], entry_other[n_])]
+    unk = [n_ for n_ in bad if not isinstance(fin_this[n_], (Lin, Ptr, int))]
+    inst = f'{label}: *this takes over all four fields of the source'
+    if not bad: add('RB.5', True, inst, site, key='RB.5|move')
+    elif unk: add('RB.5', None, inst, site, f'{unk[0]} becomes {fin_this[unk[0]]}')
+    else: add('RB.5', False, inst, site, f'after the move {", ".join(f"{n_} = {fin_this[n_]}" for n_ in bad)} (the source had {", ".join(f"{n_} = {entry_other[n_]}" for n_ in bad)}): the buffer is left inconsistent', key='RB.5|move')
+    empty = {'m_pos': Lin.const(0), 'm_size': Lin.const(0), 'm_capacity': Lin.const(0), 'm_data': Ptr('null')}
+    swapped = all(same(fin_other[n_], entry_this[n_]) for n_ in names)
+    emptied = all(same(fin_other[n_], empty[n_]) for n_ in names)
+    inst = f'{label}: the source is left in a consistent state (the former state of *this, or empty)'
+    if swapped or emptied: add('RB.5', True, inst, site, key='RB.5|move-src')
+    elif any(not isinstance(fin_other[n_], (Lin, Ptr, int)) for n_ in names): add('RB.5', None, inst, site, 'a field of the source gets a value the evaluator does not follow')
+    else: add('RB.5', False, inst, site, 'the source keeps ' + ', '.join(f'{n_} = {fin_other[n_]}' for n_ in names) + ': it still refers to the storage that *this now owns (double free) or mixes two states', key='RB.5|move-src')
 
 
 def op_eq_static(f, add, label, site):
@@ -710,24 +781,30 @@ def op_resize(ctx, add, label, rt, site):
     add('RB.4', ok, f'{label} {rt}: capacity\' = n', site, '' if ok else f'capacity becomes {cap1}', key='RB.4|cap')
     re_ = [(n, p) for n, p in ctx.ev if p[0] == 'realloc']
     if re_:
-        # in place: requires every live element below n.  The guard atoms are order relations on last = Mod(P+S-1).
-        contig = None; fits = None; others = []
-        for k, v in ctx.rows.items():
-            if isinstance(k, tuple) and k[0] == 'ord':
-                txt = k[1]
-                if 'Mod(P+S-1)' in txt:
-                    l, r = txt.split(' ? ')
-                    if l == 'P' and r == 'Mod(P+S-1)': contig = v in ('<', '=')
-                    elif l == 'Mod(P+S-1)' and r == 'P': contig = v in ('>', '=')
-                    elif l == 'Mod(P+S-1)' and r == 'p:newCapacity': fits = v == '<'
-                    elif r == 'Mod(P+S-1)' and l == 'p:newCapacity': fits = v == '>'
-                    else: others.append(txt)
-        growing = ctx.sign(N - C_) == 1
-        safe = growing or (contig is True and fits is True)
+        # in place: safe iff the live elements are contiguous and lie below n (and the head stays a valid index).
+        # Proof: linear reasoning over the row; refutation: a concrete small buffer state consistent with the row.
+        def safe_at(env):
+            P, S, C, n = env['P'], env['S'], env['C'], env['p:newCapacity']
+            if S == 0: return P < n or n >= C        # nothing to lose; the head must stay below the new capacity when shrinking
+            return P + S <= C and P + S <= n
+        sS = ctx.sign(S_)
+        if sS == 0: needs = [(N - P_, True)] if ctx.sign(N - C_) != 1 else []
+        else: needs = [(C_ - P_ - S_, False), (N - P_ - S_, False)]
+        signs = [ctx.sign(d) for d, strict in needs]
+        proved = sS is not None and all(s_ is not None and (s_ > 0 or (s_ == 0 and not strict)) for s_, (d, strict) in zip(signs, needs))
+        safe = True if proved else None
         why = ''
-        if not safe:
-            if contig is not True and not growing: why = f'the in-place realloc branch is taken although the live elements may wrap around the end of the storage ({rt}): shrinking cuts wrapped elements off'
-            else: why = f'the in-place realloc branch is taken although the last live element is not known to lie below the new capacity ({rt}): realloc cuts off live elements that are never destroyed, size and head are kept, later accesses wrap onto other slots'
+        if not proved:
+            verdict, w = ctx.model_check(safe_at)
+            if verdict == 'holds':
+                safe = True      # piecewise-linear guard over residues: decided on every buffer state with capacity <= 5 consistent with the row
+            elif verdict == 'refuted':
+                safe = False
+                wrapped = w['S'] > 0 and w['P'] + w['S'] > w['C']
+                why = (f'the in-place realloc branch is taken although the live elements may wrap around the end of the storage ({rt}): shrinking cuts wrapped elements off' if wrapped else
+                       f'the in-place realloc branch is taken although the last live element is not known to lie below the new capacity ({rt}): realloc cuts off live elements that are never destroyed, size and head are kept, later accesses wrap onto other slots') + \
+                      f' — e.g. head {w["P"]}, size {w["S"]}, capacity {w["C"]}, new capacity {w["p:newCapacity"]}'
+            else: why = f'neither proved nor refuted from the path condition {rt}'
         add('RB.4', safe, f'{label} {rt}: in-place reallocation only when every live element lies below n', re_[0][0].shortloc(), why, key='RB.4|inplace-guard')
         okf = isinstance(pos1, Lin) and pos1 == P_ and size1 is not None and ctx.eq(size1, S_)
         add('RB.4', okf, f'{label} {rt}: in place keeps pos and size', site, '' if okf else f'pos\'={pos1}, size\'={size1}', key='RB.4|inplace-fields')
